@@ -7,17 +7,32 @@ From VF Require Import Base.Sx Tftp.Codec Tftp.NegSpec Tftp.CodecProofs Tftp.Tra
 Import ListNotations.
 Open Scope N_scope.
 
-(* For EVERY datagram and every list of request handlers the modelled port code returns normally
-   (no exception reaches the catch-all of TftpServer._run) and its reaction is: nothing, exactly one
-   ERROR with code 1, 2 or 4, or exactly one transfer start whose (filename, mode, options) are the
-   decoding of the datagram, with a mode other than mail, handled by the first accepting handler. *)
-Theorem C09_request_port_total : forall hs d,
-  exists acts, process_request true hs d = Ok acts /\ serve_one true hs d = acts /\ reaction_ok hs d acts.
-Proof. exact request_port_total. Qed.
+(* [serve_one_v pcurrent f port0 sendable hs d] is one iteration of the serve loop of the code as it is now,
+   for a datagram d from UDP source port 0 (port0 = true) or from another requester, to whom sendto()
+   works (sendable = true) or fails with OSError for a reason outside the datagram (EPERM, ENETUNREACH),
+   with the injected fault f (None = none).  For a requester other than port 0 it is
+   [serve_one_f f sendable hs d], the function the theorems about codes and decoding speak about. *)
+Theorem C09_current_ordinary : forall f sendable hs d,
+  serve_one_v pcurrent f false sendable hs d = serve_one_f f sendable hs d.
+Proof. exact serve_one_v_ordinary. Qed.
+Print Assumptions C09_current_ordinary.
+
+(* For EVERY datagram from EVERY source and every list of request handlers the modelled port code returns
+   normally (no exception reaches the catch-all of TftpServer._run) and its reaction is: nothing, exactly
+   one ERROR with code 1, 2 or 4, or exactly one transfer start whose (filename, mode, options) are the
+   decoding of the datagram, with a mode other than mail, handled by the first accepting handler; a
+   datagram from source port 0 gets no reaction at all, whatever its bytes. *)
+Theorem C09_request_port_total : forall port0 hs d,
+  exists acts, process_request_v pcurrent None port0 true hs d = Ok acts /\
+               serve_one_v pcurrent None port0 true hs d = acts /\ reaction_ok hs d acts /\ (port0 = true -> acts = []).
+Proof. exact request_port_total_v. Qed.
 Print Assumptions C09_request_port_total.
 
-Theorem C09_request_port_no_internal_error : forall hs d, ~ In ALogExc (serve_one true hs d).
-Proof. exact request_port_no_internal_error. Qed.
+Theorem C09_request_port_no_internal_error : forall port0 hs d, ~ In ALogExc (serve_one_v pcurrent None port0 true hs d).
+Proof.
+  intros port0 hs d. destruct (request_port_total_v port0 hs d) as [acts [_ [-> [H _]]]].
+  inversion H; cbn; intuition discriminate.
+Qed.
 Print Assumptions C09_request_port_no_internal_error.
 
 (* which reaction for which datagram: short -> nothing; unknown opcode -> nothing; WRQ -> ERROR 2;
@@ -55,41 +70,48 @@ Theorem C09_start_only_for_rfc_shape : forall sendable hs d f m o i,
 Proof. exact start_only_for_rfc_shape. Qed.
 Print Assumptions C09_start_only_for_rfc_shape.
 
-(* the executable checker used on the implementation's reactions accepts the model *)
-Theorem C09_port_holds : forall hs d, port_holds true hs d (serve_one true hs d) = [].
-Proof. exact port_holds_model. Qed.
+(* the executable checker used on the implementation's reactions accepts the model of the current code for
+   EVERY case: any source (port 0 included, without exemption), any injected fault.  This is also the tie
+   between the theorems and the evaluated cases (the entry answers covered = 1 for every case). *)
+Theorem C09_port_holds : forall f port0 sendable hs d,
+  port_check f port0 sendable hs d (serve_one_v pcurrent f port0 sendable hs d) = [].
+Proof. exact port_check_model. Qed.
 Print Assumptions C09_port_holds.
+Theorem C09_port_covered_cases : forall f port0 sendable hs d,
+  port_check f port0 sendable hs d (serve_one_v pcurrent f port0 sendable hs d) = [].
+Proof. exact port_check_model. Qed.
+Print Assumptions C09_port_covered_cases.
 
-(* Fault dimension: the reply cannot be sent (sendto raises OSError, e.g. EINVAL for a requester with
-   source port 0).  The same reaction is attempted - at most one sendto call -, the OSError is logged
-   by the catch-all exactly when a reply was due (known finding D22: a traceback caused by a
-   client-controlled source port), and nothing else changes; datagrams that need no reply and
-   transfer starts are unaffected. *)
-Theorem C09_request_port_unsendable : forall hs d,
-  serve_one false hs d = port_spec hs d ++ (if existsb is_send (port_spec hs d) then [ALogExc] else []) /\
-  reaction_ok hs d (port_spec hs d).
-Proof. exact request_port_unsendable. Qed.
+(* source port 0: no reaction whatever the bytes, whatever the handlers, whether or not sendto would work;
+   only an exception injected at the (debug) log statement is seen *)
+Theorem C09_port0_no_reaction : forall f sendable hs d,
+  serve_one_v pcurrent f true sendable hs d = match f with Some (SLog, _) => [ALogExc] | _ => [] end.
+Proof. exact port0_no_reaction. Qed.
+Print Assumptions C09_port0_no_reaction.
+
+(* a reply that the environment does not let through (sendto raises OSError although the requester's port
+   is not 0): the same reaction is attempted once, the OSError is logged by the catch-all exactly when a
+   reply was due, nothing else changes - an environment fault like the injected ones *)
+Theorem C09_request_port_unsendable : forall f port0 sendable hs d,
+  serve_one_v pcurrent f port0 sendable hs d = expected_obs f port0 sendable hs d.
+Proof. exact serve_one_v_spec. Qed.
 Print Assumptions C09_request_port_unsendable.
 
-(* the checker reports that situation under the clause port_reply_unsendable_logged and no other *)
-Theorem C09_port_holds_unsendable : forall hs d,
-  port_holds false hs d (serve_one false hs d) =
-  if existsb is_send (port_spec hs d) then ["C09:port_reply_unsendable_logged"%string] else [].
-Proof. exact port_holds_unsendable. Qed.
-Print Assumptions C09_port_holds_unsendable.
-
-(* the serve loop keeps serving: every datagram that arrives (truncated to 512 bytes by recvfrom) gets
-   its reaction, whatever arrived before it and whether or not earlier replies could be sent *)
-Theorem C09_serve_loop_total : forall hs reqs,
-  run_loop false hs reqs = map (fun r => serve_one (fst r) hs (firstn MAX_REQUEST_PACKET_SIZE (snd r))) reqs.
-Proof. exact run_loop_total. Qed.
-Print Assumptions C09_serve_loop_total.
-
-(* a loop that leaves on OSError stops serving after one reply that cannot be sent *)
-Theorem C09_serve_loop_break_refuted :
-  exists hs reqs, (length (run_loop true hs reqs) < length reqs)%nat /\ length (run_loop false hs reqs) = length reqs.
-Proof. exact run_loop_break_refuted. Qed.
-Print Assumptions C09_serve_loop_break_refuted.
+(* D22 (repaired by 7078de3): before the repair a datagram from source port 0 got the normal reaction; the
+   one reply was attempted, sendto failed with OSError and the catch-all logged it with a traceback.
+   The general description of that behaviour ... *)
+Theorem C09_D22_behaviour : forall f port0 sendable hs d,
+  serve_one_v pv_D22 f port0 sendable hs d = serve_one_f f (sendable && negb port0) hs d /\
+  serve_one false hs d = port_spec hs d ++ (if existsb is_send (port_spec hs d) then [ALogExc] else []).
+Proof. intros. split; [apply serve_one_v_D22|apply request_port_unsendable]. Qed.
+Print Assumptions C09_D22_behaviour.
+(* ... and a witness that the checker rejects it: a write request from source port 0 *)
+Theorem C09_refuted_D22_port0 :
+  serve_one_v pv_D22 None true true [HConst true] [0; 2] = [ASendError 2; ALogExc] /\
+  port_check None true true [HConst true] [0; 2] (serve_one_v pv_D22 None true true [HConst true] [0; 2]) <> [] /\
+  serve_one_v pcurrent None true true [HConst true] [0; 2] = [].
+Proof. exact port_check_refuted_D22. Qed.
+Print Assumptions C09_refuted_D22_port0.
 
 (* the constructor of _TftpReadRequest, which runs in the request-port thread, cannot raise on option
    values: int() is reached only for strings the FULL-match regular expression accepts, even with
@@ -98,15 +120,15 @@ Theorem C09_transfer_constructor_total : forall fn m o i, m <> Mail -> start_tra
 Proof. exact start_transfer_ok. Qed.
 Print Assumptions C09_transfer_constructor_total.
 
-(* Fault dimension 2: a callee of the request-port thread raises ANY exception (RuntimeError of
-   Thread.start, MemoryError, KeyError, a custom class, OSError, ...) at the log statement /
-   socket_address_to_str, in prepare_context or can_handle of the i-th handler, at the handle lookup
-   or at Thread.start.  If control reaches that station, the catch-all logs the exception and nothing
-   else happens for this datagram (no reply attempt, no transfer); if it does not, nothing changes. *)
-Theorem C09_request_port_faulted : forall st e sendable hs d,
-  serve_one_f (Some (st, e)) sendable hs d =
-  if reaches st hs d then [ALogExc] else serve_one_f None sendable hs d.
-Proof. exact request_port_faulted. Qed.
+(* Fault dimension: a callee of the request-port thread raises ANY exception (RuntimeError of Thread.start,
+   MemoryError, KeyError, a custom class, OSError, ...) at the log statement / socket_address_to_str, in
+   prepare_context or can_handle of the i-th handler, at the handle lookup or at Thread.start.  If control
+   reaches that station the catch-all logs the exception and nothing else happens for this datagram; if it
+   does not, nothing changes.  For source port 0 only the log statement is reached. *)
+Theorem C09_request_port_faulted : forall st e port0 sendable hs d,
+  serve_one_v pcurrent (Some (st, e)) port0 sendable hs d =
+  if reaches_v st port0 hs d then [ALogExc] else serve_one_v pcurrent None port0 sendable hs d.
+Proof. exact request_port_faulted_v. Qed.
 Print Assumptions C09_request_port_faulted.
 
 (* the log statement is reached for every datagram; Thread.start and the handle lookup exactly when a
@@ -118,35 +140,30 @@ Theorem C09_fault_reach : forall hs d,
 Proof. intros hs d. split; [apply reaches_log|intros st H; apply reaches_start_iff; exact H]. Qed.
 Print Assumptions C09_fault_reach.
 
-(* the serve loop survives every Exception: each datagram that arrives gets the reaction it would get
-   alone, whichever faults were injected before it *)
+(* the serve loop survives every Exception and keeps serving: each datagram that arrives (truncated to 512
+   bytes by recvfrom) gets the reaction it would get alone, whichever faults were injected and whatever
+   arrived before it *)
 Theorem C09_serve_loop_survives : forall hs reqs,
-  run_loop_f catch_all hs reqs =
-  map (fun r => serve_one_f (fst (fst r)) (snd (fst r)) hs (firstn MAX_REQUEST_PACKET_SIZE (snd r))) reqs.
-Proof. exact run_loop_f_total. Qed.
+  run_loop_v pcurrent catch_all hs reqs =
+  map (fun r => serve_one_v pcurrent (fst (fst r)) (fst (snd (fst r))) (snd (snd (fst r))) hs
+                            (firstn MAX_REQUEST_PACKET_SIZE (snd r))) reqs.
+Proof. exact run_loop_v_total. Qed.
 Print Assumptions C09_serve_loop_survives.
 
-(* a loop that catches only OSError and ValueError is left by the RuntimeError of Thread.start *)
+(* loops the code does not have: leaving on OSError (old model of a dead socket), catching only OSError and
+   ValueError *)
+Theorem C09_serve_loop_break_refuted :
+  exists hs reqs,
+    (length (run_loop_v pcurrent break_on_oserror_policy hs reqs) < length reqs)%nat /\
+    length (run_loop_v pcurrent catch_all hs reqs) = length reqs.
+Proof. exact run_loop_v_break_refuted. Qed.
+Print Assumptions C09_serve_loop_break_refuted.
 Theorem C09_serve_loop_narrow_catch_refuted :
   exists hs reqs,
-    (length (run_loop_f only_oserror_valueerror hs reqs) < length reqs)%nat /\
-    length (run_loop_f catch_all hs reqs) = length reqs.
-Proof. exact run_loop_narrow_catch_refuted. Qed.
+    (length (run_loop_v pcurrent only_oserror_valueerror hs reqs) < length reqs)%nat /\
+    length (run_loop_v pcurrent catch_all hs reqs) = length reqs.
+Proof. exact run_loop_v_narrow_catch_refuted. Qed.
 Print Assumptions C09_serve_loop_narrow_catch_refuted.
-
-Theorem C09_port_holds_faulted : forall st e sendable hs d,
-  port_holds_f (Some (st, e)) sendable hs d (serve_one_f (Some (st, e)) sendable hs d) =
-  if reaches st hs d then [] else port_holds sendable hs d (serve_one sendable hs d).
-Proof. exact port_holds_f_model. Qed.
-Print Assumptions C09_port_holds_faulted.
-
-(* the tie between the theorems and the evaluated cases: for every case whose entry answer carries
-   covered = 1 (port_validb) the checker accepts the model; the others (a reply due to a requester with
-   source port 0) are the subject of C09_port_holds_unsendable *)
-Theorem C09_port_covered_cases : forall f sendable hs d,
-  port_validb f sendable hs d = true -> port_holds_f f sendable hs d (serve_one_f f sendable hs d) = [].
-Proof. exact port_covered_cases. Qed.
-Print Assumptions C09_port_covered_cases.
 
 (* non-vacuity: a mixed-case request with a duplicated option name is decoded and handed to the
    second handler; a request without the final NUL is refused *)
@@ -159,6 +176,9 @@ Example C09_port_nonvacuous :
   (* near-numbers as option values do not disturb the port: the transfer starts, negotiation ignores them *)
   serve_one true [HConst true] (encode_rrq (lit "f") (lit "octet") [(lit "blksize", lit "1024x"); (lit "TIMEOUT", lit "5s")])
   = [AStart (lit "f") Octet [(lit "blksize", lit "1024x"); (lit "TIMEOUT", lit "5s")] 0] /\
-  (* a write request from source port 0: one attempt, logged *)
-  serve_one false [HConst true] [0; 2] = [ASendError 2; ALogExc].
+  (* a write request and a well-formed read request from source port 0: no reaction at all *)
+  serve_one_v pcurrent None true true [HConst true] [0; 2] = [] /\
+  serve_one_v pcurrent None true false [HConst true] (encode_rrq (lit "f") (lit "octet") []) = [] /\
+  (* a write request from a requester the environment does not let us answer: one attempt, logged *)
+  serve_one_v pcurrent None false false [HConst true] [0; 2] = [ASendError 2; ALogExc].
 Proof. vm_compute. repeat split; reflexivity. Qed.
